@@ -634,12 +634,16 @@ func (g *LookupGen) Gdef() *gdef.Table {
 }
 
 // AddLayoutTables adds tape-chosen GDEF, GSUB and GPOS tables to f.
-func AddLayoutTables(t *tape.Tape, f *sfnt.Font) {
+func AddLayoutTables(t *tape.Tape, f *sfnt.Font) { AddLayoutTablesHot(t, f, nil) }
+
+// AddLayoutTablesHot is AddLayoutTables with a set of glyphs that are used
+// more often than others.
+func AddLayoutTablesHot(t *tape.Tape, f *sfnt.Font, hot []glyph.ID) {
 	n := f.NumGlyphs()
 	if n < 2 {
 		return
 	}
-	g := &LookupGen{T: t, N: n}
+	g := &LookupGen{T: t, N: n, Hot: hot}
 	if t.Chance(2, 3) {
 		f.Gdef = g.Gdef()
 	}
@@ -712,4 +716,220 @@ func MidGpos(t *tape.Tape, n int) *gtab.Info {
 	info.FeatureList = gtab.FeatureListInfo{{Tag: "kern", Lookups: all}}
 	info.ScriptList = gtab.ScriptListInfo{language.MustParse("und-Zzzz"): {Required: 0xFFFF, Optional: []gtab.FeatureIndex{0}}}
 	return info
+}
+
+// CoveredGlyphs returns the glyphs the subtables of info refer to in their
+// coverage tables, rules and class definitions (the glyphs on which the
+// lookups can act).
+func CoveredGlyphs(info *gtab.Info) []glyph.ID {
+	set := map[glyph.ID]bool{}
+	add := func(g glyph.ID) { set[g] = true }
+	for _, l := range info.LookupList {
+		if l == nil {
+			continue
+		}
+		for _, st := range l.Subtables {
+			switch s := st.(type) {
+			case *gtab.Gsub1_1:
+				for g := range s.Cov {
+					add(g)
+				}
+			case *gtab.Gsub1_2:
+				for g := range s.Cov {
+					add(g)
+				}
+			case *gtab.Gsub2_1:
+				for g := range s.Cov {
+					add(g)
+				}
+			case *gtab.Gsub3_1:
+				for g := range s.Cov {
+					add(g)
+				}
+			case *gtab.Gsub4_1:
+				for g := range s.Cov {
+					add(g)
+				}
+				for _, ll := range s.Repl {
+					for _, lig := range ll {
+						for _, g := range lig.In {
+							add(g)
+						}
+					}
+				}
+			case *gtab.Gsub8_1:
+				for g := range s.Input {
+					add(g)
+				}
+			case *gtab.SeqContext1:
+				for g := range s.Cov {
+					add(g)
+				}
+				for _, rr := range s.Rules {
+					for _, r := range rr {
+						for _, g := range r.Input {
+							add(g)
+						}
+					}
+				}
+			case *gtab.SeqContext2:
+				for g := range s.Cov {
+					add(g)
+				}
+				for g := range s.Input {
+					add(g)
+				}
+			case *gtab.SeqContext3:
+				for _, cs := range s.Input {
+					for g := range cs {
+						add(g)
+					}
+				}
+			case *gtab.ChainedSeqContext1:
+				for g := range s.Cov {
+					add(g)
+				}
+				for _, rr := range s.Rules {
+					for _, r := range rr {
+						for _, g := range r.Input {
+							add(g)
+						}
+						for _, g := range r.Backtrack {
+							add(g)
+						}
+						for _, g := range r.Lookahead {
+							add(g)
+						}
+					}
+				}
+			case *gtab.ChainedSeqContext2:
+				for g := range s.Cov {
+					add(g)
+				}
+				for g := range s.Input {
+					add(g)
+				}
+			case *gtab.ChainedSeqContext3:
+				for _, cs := range s.Input {
+					for g := range cs {
+						add(g)
+					}
+				}
+				for _, cs := range s.Backtrack {
+					for g := range cs {
+						add(g)
+					}
+				}
+				for _, cs := range s.Lookahead {
+					for g := range cs {
+						add(g)
+					}
+				}
+			case *gtab.Gpos1_1:
+				for g := range s.Cov {
+					add(g)
+				}
+			case *gtab.Gpos1_2:
+				for g := range s.Cov {
+					add(g)
+				}
+			case gtab.Gpos2_1:
+				for p := range s {
+					add(p.Left)
+					add(p.Right)
+				}
+			case *gtab.Gpos2_2:
+				for g := range s.Cov {
+					add(g)
+				}
+				for g := range s.Class2 {
+					add(g)
+				}
+			case *gtab.Gpos4_1:
+				for g := range s.MarkCov {
+					add(g)
+				}
+				for g := range s.BaseCov {
+					add(g)
+				}
+			case *gtab.Gpos6_1:
+				for g := range s.Mark1Cov {
+					add(g)
+				}
+				for g := range s.Mark2Cov {
+					add(g)
+				}
+			}
+		}
+	}
+	var res []glyph.ID
+	for g := range set {
+		res = append(res, g)
+	}
+	sort.Slice(res, func(i, j int) bool { return res[i] < res[j] })
+	return res
+}
+
+// NormalPairs returns ll with every pair adjustment subtable brought into
+// the form the file format can hold: the file has one ValueFormat2 per
+// subtable, so as soon as one pair has a second value record every pair has
+// one (a missing one becomes the zero record).  The
+// engine moves on differently after a pair with and without a second record
+// (as the OpenType specification demands for ValueFormat2 == 0), so a table
+// that mixes both is not representable; C01 compares with the normal form.
+func NormalPairs(ll gtab.LookupList) gtab.LookupList {
+	// (the encoder gives a non-nil zero record a format of its own, so that
+	// "no second record" and "zero second record" stay apart)
+	nonZero := func(v *gtab.GposValueRecord) bool { return v != nil }
+	norm := func(p *gtab.PairAdjust, hasSecond bool) *gtab.PairAdjust {
+		q := &gtab.PairAdjust{First: p.First}
+		switch {
+		case hasSecond && p.Second == nil:
+			q.Second = &gtab.GposValueRecord{}
+		case hasSecond:
+			q.Second = p.Second
+		}
+		return q
+	}
+	res := make(gtab.LookupList, len(ll))
+	for i, lt := range ll {
+		if lt == nil {
+			continue
+		}
+		cp := *lt
+		cp.Subtables = append([]gtab.Subtable(nil), lt.Subtables...)
+		for j, st := range cp.Subtables {
+			switch s := st.(type) {
+			case gtab.Gpos2_1:
+				has := false
+				for _, p := range s {
+					has = has || nonZero(p.Second)
+				}
+				n := gtab.Gpos2_1{}
+				for k, p := range s {
+					n[k] = norm(p, has)
+				}
+				cp.Subtables[j] = n
+			case *gtab.Gpos2_2:
+				has := false
+				for _, row := range s.Adjust {
+					for _, p := range row {
+						has = has || nonZero(p.Second)
+					}
+				}
+				n := *s
+				n.Adjust = nil
+				for _, row := range s.Adjust {
+					var r []*gtab.PairAdjust
+					for _, p := range row {
+						r = append(r, norm(p, has))
+					}
+					n.Adjust = append(n.Adjust, r)
+				}
+				cp.Subtables[j] = &n
+			}
+		}
+		res[i] = &cp
+	}
+	return res
 }
